@@ -61,14 +61,13 @@ func Verif_H16Races() {
 	// prefix byte) and values keep the exploration to schedules and activity pairs
 	keys := [][]byte{{0x00, 4, 0x5A, 0x01, 0x02, 0x03}, {0x00, 4, 0x5A, 0x01, 0x07, 0x08}}
 	m := newModel(len(keys))
-	scriptedPrefix(s, c, keys, m, 1)
+	// prefix 1 leaves everything flushed, prefix 4 ends with unflushed overwrites (so that a
+	// concurrent Flush has work to commit)
+	scriptedPrefix(s, c, keys, m, []int{1, 4}[vrt.Choose("prefix", 2)])
 	if vrt.Param("rated", 1) != 0 {
 		// a known flush rate and no burst allowance: writers take the back-pressure path
 		s.flushRate = 1
 		s.burstRate = 0
-	}
-	if vrt.Choose("flushed", 2) == 1 {
-		s.Flush()
 	}
 	a := vrt.Choose("act-a", nActs)
 	b := a + vrt.Choose("act-b", nActs-a)
